@@ -446,7 +446,10 @@ func ruleCommittedRead(c *Ctx) {
 		}
 	}
 	c.minInstances("entry-returning paths of Get", k, 3)
-	// sparse scans: K23
+}
+
+// ruleCommittedScanSparse: the sparse-mode scans consult the committed-transaction index.
+func ruleCommittedScanSparse(c *Ctx) {
 	txidFn := c.P.Func("(*Tx).FindTxIDOnDisk")
 	for _, name := range []string{"RangeScan", "PrefixScan", "PrefixSearchScan"} {
 		m := c.P.MustFunc("(*Tx)." + name)
